@@ -27,7 +27,7 @@
    on the concrete loops with "the successors seen so far" in place of the list prefix, against NegamaxSpec.nmx — which is
    Pvs.negamax on the game tree of the rules model (tree_of). *)
 From Coq Require Import NArith ZArith List Bool.
-Require Import Board Move GameOver Eval Search NegamaxSpec SearchGen SearchExact.
+Require Import Board Move GameOver Eval Search NegamaxSpec SearchGen SearchExact SearchEx.
 Require Pvs.
 Import ListNotations.
 Open Scope Z_scope.
@@ -86,3 +86,15 @@ Print Assumptions C05_assumptions_consistent.
 Theorem C05_equal_moves_same_effect : forall basis p a b, move_equal a b = true -> try_move basis p a = try_move basis p b.
 Proof. exact move_equal_try. Qed.
 Print Assumptions C05_equal_moves_same_effect.
+
+(* The repaired defect "second Analyze of the same position reports value 0" (known_findings: analyze-twice-value, fixed by 8daa71e) in the
+   model: with the `pinned` switch of Search.v set (the code before the repair) the second of two identical calls on one engine (64-entry
+   table, default evaluator, empty 3x3 board, depth 2; SearchEx.twice) reports 0 after a non-zero first value; the model of the repaired
+   code reports the same value twice.  Computed on the instantiated model (constants regenerated from /repo). *)
+Theorem C05_analyze_twice_refuted_pinned : exists v1, twice true = (v1, 0) /\ v1 <> 0.
+Proof. exact analyze_twice_refuted_pinned. Qed.
+Print Assumptions C05_analyze_twice_refuted_pinned.
+
+Theorem C05_analyze_twice_fixed : exists v1, twice false = (v1, v1) /\ v1 <> 0.
+Proof. exact analyze_twice_fixed. Qed.
+Print Assumptions C05_analyze_twice_fixed.
